@@ -472,6 +472,12 @@ impl Debug for OwnerInner {
 
 impl Drop for OwnerInner {
     fn drop(&mut self) {
+        // an owner can be dropped from anywhere (e.g., when a server drops the response of a
+        // client that has gone away): its cleanup functions should still see its own arena, not
+        // the one that happens to be current on this thread
+        #[cfg(feature = "sandboxed-arenas")]
+        let _arena = Arena::enter(&self.arena);
+
         for child in std::mem::take(&mut self.children) {
             if let Some(child) = child.upgrade() {
                 child.cleanup();
@@ -507,6 +513,9 @@ trait Cleanup {
 
 impl Cleanup for RwLock<OwnerInner> {
     fn cleanup(&self) {
+        #[cfg(feature = "sandboxed-arenas")]
+        let _arena = Arena::enter(&self.read().or_poisoned().arena);
+
         let (cleanups, nodes, children) = {
             let mut lock = self.write().or_poisoned();
             (
